@@ -5,6 +5,22 @@ ROOT = os.path.dirname(os.path.dirname(os.path.abspath(__file__)))
 
 # id -> (category, technique, level text, level note, design_ref)
 CHECKS = {
+ "C07": ("exploration",
+         "exhaustive enumeration of every (built-in calendar, date 1970-2200) pair on the real tables vs transcribed published rules; fixing histories vs business days",
+         "Complete in both tiers: 14 calendars x 84 371 dates against rule models transcribed from the generator scripts (two-directional for tgt nyc fed ldn stk osl zur, one-directional documented holidays for tro tyo syd wlg mum), fed == nyc minus Good Friday, documented names resolve, nine fixing files reproduce exactly.",
+         "Trusted: transcription of the pandas rule semantics in harness/src/props/c07.rs; Easter algorithm; civil-date model.",
+         "DESIGN.md §4 C07"),
+ "C09": ("exploration",
+         "bounded-exhaustive enumeration of labelled trees (Pruefer) x orientations x quote orderings x bases on the real FXRates vs exact rational path products; exhaustive short quote sequences for rejection",
+         "All labelled trees on 2..5 (6) currencies with every orientation, ordering and base; every free-tree shape up to 9 (12) currencies with an ordering/orientation menu; every quote sequence of length <= 4 over 4 (5) currencies with bases and settlement patterns for accept/reject.",
+         "Trusted: exact i128 rational path products; union-find tree test.",
+         "DESIGN.md §4 C09"),
+ "C10": ("model_checking",
+         "explicit-state BFS (stateright) to a fixpoint over the real FXRates object under update / refused-update / set_ad_order actions, plus bounded-exhaustive closed-form sensitivities",
+         "The state graph of the real object (state = its complete content) is explored to the fixpoint for every tree market on 2-3 currencies and a chain/star on 4, so histories of every length over the action menu are covered; every transition is an execution of the real mutator and every state is compared with a market built directly from the latest quotes. Sensitivities: all trees <= 4 (5) currencies x quote forms x orders against closed forms.",
+         "Trusted: 2-3 value table per quote; closed-form derivatives of a product of powers; state key = full content (no abstraction).",
+         "DESIGN.md §4 C10"),
+
  "C04": ("exploration",
          "bounded-exhaustive enumeration of calendars-as-words over {N,B,S} x month-boundary positions x dates x modifiers x flags on the real roll, vs linear-search specification",
          "Every calendar roll can distinguish on an 8-day (11-day) window, at every month-boundary position on three anchors, in three realisations, plus all built-in calendars over every date 1970-2200 and all week masks; every modifier and both settlement flags. Complete within the window bound.",
